@@ -742,6 +742,101 @@ def fix_to_float_translation(tc, signed, n_bits, n_frac):
     return T
 
 
+_LAYOUT = {}
+
+
+def _layouts(np, flat):
+    """The same elements in several memory layouts: (name, array)."""
+    n = len(flat)
+    a = np.array(flat)
+    out = [("1-d", a), ("0-d", a[0].reshape(()))]
+    r = n // 4 * 4
+    if r >= 8:
+        sq = a[:r].reshape(r // 4, 4)
+        out += [("2-d C", sq), ("2-d transposed view", sq.T),
+                ("2-d Fortran copy", np.asfortranarray(sq)),
+                ("strided view", sq[:, ::2]),
+                ("reversed view", a[::-1])]
+    r = n // 6 * 6
+    if r >= 12:
+        cube = a[:r].reshape(r // 6, 3, 2)
+        out.append(("3-d swapped axes", np.swapaxes(cube, 0, 2)))
+    return out
+
+
+def layout_differential(tc, direction, signed, n_bits, n_frac):
+    """The real array converter against the real scalar converter, element
+    for element, on boundary values held in arrays of several memory layouts
+    (both sides are rig's own functions run concretely: a disagreement is a
+    violation of the property as it stands, whatever the translator can or
+    cannot read).  Returns None or (layout, index, element, array result,
+    scalar result).  Once per format and process."""
+    key = (direction, signed, n_bits, n_frac)
+    if key in _LAYOUT:
+        return _LAYOUT[key]
+    import numpy as np
+    bad = None
+    try:
+        if direction == "f2x":
+            conv = tc.NumpyFloatToFixConverter(signed, n_bits, n_frac)
+            scalar = tc.float_to_fp(signed, n_bits, n_frac)
+            pts = _boundary_doubles(signed, n_bits, n_frac)
+            flat = np.array(pts[::max(1, len(pts) // 96)][:96],
+                            dtype=np.float64)
+        else:
+            conv = tc.NumpyFixToFloatConverter(n_frac)
+            scalar = tc.fp_to_float(n_frac)
+            flats = []
+            # the converter is parameterised by n_frac alone: arrays of every
+            # supported width and signedness are legitimate arguments
+            for sg, nb in [(signed, n_bits)] + [
+                    (a, b) for a in (True, False) for b in (8, 16, 32, 64)
+                    if (a, b) != (signed, n_bits)]:
+                lo, hi = _range(sg, nb)
+                cs = sorted(set(c for c in (
+                    lo, lo + 1, lo // 2, -3, -2, -1, 0, 1, 2, 3, 5, hi // 3,
+                    hi // 2, hi - 1, hi, 85 & hi, 170 & hi, (1 << 53) + 1,
+                    hi - 511, hi - 513, lo + 513, 7, 11, 13, 100, 127)
+                    if lo <= c <= hi))
+                flats.append(np.array(cs, dtype=_np_dtype(tc, sg, nb)))
+        if direction == "f2x":
+            flats = [flat]
+        with np.errstate(all="ignore"):
+            for flat in flats:
+                for name, arr in _layouts(np, flat):
+                    res = np.asarray(conv(arr))
+                    if res.shape != arr.shape:
+                        bad = (name, "shape", arr.shape, res.shape, None)
+                        break
+                    for idx in np.ndindex(*arr.shape):
+                        e = arr[idx]
+                        if direction == "f2x":
+                            want = scalar(float(e))
+                            got = int(res[idx])
+                        else:
+                            want = scalar(int(e))
+                            got = float(res[idx])
+                        if got != want:
+                            bad = (name + " " + str(arr.dtype), idx,
+                                   e.item(), got, want)
+                            break
+                    if bad:
+                        break
+                if bad:
+                    break
+    except Exception as x:
+        bad = ("converter raised", repr(x), None, None, None)
+    _LAYOUT[key] = bad
+    return bad
+
+
+def _check_layouts(ctx, tc, direction, signed, n_bits, n_frac):
+    bad = layout_differential(tc, direction, signed, n_bits, n_frac)
+    ctx.prove(bad is None, "numpy-differs-from-scalar-in-some-layout",
+              (direction, signed, n_bits, n_frac, bad))
+    return bad is None
+
+
 def _ext(e, signed):
     n = e.size()
     if n > WW:
@@ -762,6 +857,8 @@ def numpy_float_to_fix(ctx, tc, v, signed, n_bits, n_frac):
     """What NumpyFloatToFixConverter(signed, n_bits, n_frac) returns for an
     element v: symbolic = the translation (with the proof that no cast is
     undefined), concrete = the real converter on real arrays."""
+    if not _check_layouts(ctx, tc, "f2x", signed, n_bits, n_frac):
+        return None
     if ctx.symbolic:
         try:
             T = float_to_fix_translation(tc, signed, n_bits, n_frac)
@@ -804,6 +901,8 @@ def numpy_float_to_fix(ctx, tc, v, signed, n_bits, n_frac):
 
 
 def numpy_fix_to_float(ctx, tc, q, signed, n_bits, n_frac):
+    if not _check_layouts(ctx, tc, "x2f", signed, n_bits, n_frac):
+        return None
     if ctx.symbolic:
         try:
             T = fix_to_float_translation(tc, signed, n_bits, n_frac)
